@@ -251,6 +251,7 @@ pub struct DoyRead {
 }
 
 thread_local! {
+    static J_FORMATS: (hifitime::efmt::Format, hifitime::efmt::Format) = (<hifitime::efmt::Format as std::str::FromStr>::from_str("%J").unwrap(), <hifitime::efmt::Format as std::str::FromStr>::from_str("%Y %J").unwrap());
     static ORDINAL_FORMAT: hifitime::efmt::Format = <hifitime::efmt::Format as std::str::FromStr>::from_str("%j").unwrap();
 }
 
@@ -276,6 +277,23 @@ fn doyread_oracle(c: &DoyRead) -> Verdict {
     // the ordinal day printed by %j is the whole part of that day of year
     let j = lib!(format!("{}", hifitime::efmt::Formatter::new(e, ORDINAL_FORMAT.with(|f| *f))));
     ensure!(j == format!("{:03}", in_year / NS_D + 1), "%j of {} count {} prints {:?}, want {:03}", SCALE_NAMES[c.s], cnt, j, in_year / NS_D + 1);
+    // the fractional day of year printed by %J is that same day of year (1 January is day 1), alone and next to a date token
+    {
+        let want = format!("{}", dd);
+        let (fa, fb) = J_FORMATS.with(|f| *f);
+        let ja = lib!(format!("{}", hifitime::efmt::Formatter::new(e, fa)));
+        let jb = lib!(format!("{}", hifitime::efmt::Formatter::new(e, fb)));
+        ensure!(ja == want, "%J of {} count {} prints {:?}, want {:?}", SCALE_NAMES[c.s], cnt, ja, want);
+        ensure!(jb == format!("{} {}", fmt_year(g.y), want), "\"%Y %J\" of {} count {} prints {:?}, want \"{} {}\"", SCALE_NAMES[c.s], cnt, jb, fmt_year(g.y), want);
+    }
+    // the ordinal date text YYYY-DDD (the ISO 8601 ordinal format) parses back to the start of that day, day 366 included
+    if c.s == S_UTC && (1..=9999).contains(&g.y) {
+        let txt = format!("{}-{}", fmt_year(g.y), j);
+        match lib!(hifitime::efmt::consts::ISO8601_ORDINAL.parse(&txt)) {
+            Ok(p) => ensure!(p.time_scale == SCALES[S_UTC] && count(p.duration) == cnt - cnt.rem_euclid(NS_D), "{:?} parses to count {}, want the start of that day {}", txt, count(p.duration), cnt - cnt.rem_euclid(NS_D)),
+            Err(err) => return Verdict::Fail(format!("the ordinal date {:?} does not parse: {:?}", txt, err)),
+        }
+    }
     let class = if g.m == 12 && g.d == 31 { "31-december" } else if g.y < 1900 { "before-1900" } else if c.s != S_GPST { "scale!=GPST" } else { "plain" };
     Verdict::Pass(class, class != "plain")
 }
